@@ -12,9 +12,12 @@ def monitor(case, o):
             live.add(a[0])
         elif ev == "reap":
             live.discard(a[0])
-        elif ev == "drop":
-            live.discard(a[0])
+        # (a dropped child handle -- kill_on_drop, exit status never collected -- is NOT reaped: the property asks for the
+        #  exit status to have been collected before the next spawn; the Coq `live_of` ignores drops in the same way)
     return out
+
+
+monitor.raw_ok = True      # reads the event log only, not the API names
 
 
 class C04(Prop):
